@@ -88,6 +88,14 @@ Increasing == \A i \in 1..(Len(cols) - 1) : cols[i].at < cols[i + 1].at
 LoopSpacing == \A i, j \in 1..Len(cols) : (i < j /\ cols[i].kind = "loop" /\ cols[j].kind = "loop") => cols[j].at - cols[i].at >= step
 FirstLoopAfterStep == \A i \in 1..Len(cols) : cols[i].kind = "loop" => cols[i].at >= step
 \* a remainder column is the last of its run
+\* the statement's reading without the mechanism's loop / remainder labels (this is what AnalysisTrace judges observed points with): a point is a
+\* "final remainder" iff it is the last of its run AND closer than one step to the point before it; every other point is ordinary, and ordinary
+\* points are pairwise at least one step apart and at least one step from the start
+PrevAt(i) == IF i = 1 THEN 0 ELSE cols[i - 1].at
+IsRemainder(i) == (i = Len(cols) \/ cols[i + 1].run > cols[i].run) /\ cols[i].at - PrevAt(i) < step
+OrdinarySpacing == (phase = "idle") =>
+    /\ \A i, j \in 1..Len(cols) : (i < j /\ ~IsRemainder(i) /\ ~IsRemainder(j)) => cols[j].at - cols[i].at >= step
+    /\ \A i \in 1..Len(cols) : ~IsRemainder(i) => cols[i].at >= step
 RemIsLastOfRun == \A i \in 1..Len(cols) : cols[i].kind = "rem" => (i = Len(cols) \/ cols[i + 1].run > cols[i].run)
 \* after every run the last column is at the total processed so far
 EndsAtTotal == (phase = "idle" /\ step > 0 /\ run > 0) => (Len(cols) > 0 /\ Last(cols).at = processed)
